@@ -148,7 +148,19 @@ func dRandRegex(rng *rand.Rand, capture bool) string {
 		k := rng.Intn(n)
 		parts[k] = "(?P<v>" + []string{"[ab]", "[abc]+", "a|b", "c", "[bc]{1,2}"}[rng.Intn(5)] + ")"
 	}
-	return strings.Join(parts, "")
+	rx := strings.Join(parts, "")
+	if !capture {
+		// anchored expressions: one-pass programs whose literal prefix starts behind the ^
+		switch rng.Intn(10) {
+		case 0:
+			rx = "^" + rx
+		case 1:
+			rx = rx + "$"
+		case 2:
+			rx = "^" + rx + "$"
+		}
+	}
+	return rx
 }
 
 func dFeatures(rx string) string {
